@@ -49,8 +49,13 @@ namespace
   {
     static FILE *f = [] () -> FILE *
       {
+	// One file per process: <name>.<pid>
 	char const *fn = getenv ("DWGREP_VERIF_SCON_TRACE");
-	return fn != nullptr ? fopen (fn, "a") : nullptr;
+	if (fn == nullptr)
+	  return nullptr;
+	char buf[4096];
+	snprintf (buf, sizeof buf, "%s.%d", fn, (int) getpid ());
+	return fopen (buf, "a");
       } ();
     return f;
   }
